@@ -15,17 +15,30 @@ Import ListNotations.
 Open Scope Z_scope.
 
 (* ---- composition: any nesting, any depth, both call styles, every input *)
+(* wrapper trees: PreConverted, PostConverted, FixedSeatCount, Conditioned, ByConstituency (fixed / delegated / distributor
+   apportionment, the distributor possibly SEATLESS), PreApportioned, RemovedApportionment, ByParty (overall evaluator possibly
+   seatless), MultistageDistributor, TieBreaking, PartyListEvaluator (closed / open), VotingSystem, UnusedVotesDistributor
+   (any depth; quota functions arbitrary), AdjustedSeatCount (calculator arbitrary, or AllowOverhang / LevelOverhang over a
+   tree).  [fits]: every supplied argument is one the tree takes; [seat_fits]: the seat count supplied (a number, a
+   dictionary, None / omitted) is of a kind every seatless apportioner / overall evaluator it reaches can be called with. *)
 Definition C14_compose_full_statement : Prop :=
   forall leaf conv t, wt t = true ->
-  forall st sa votes, fits t sa = true ->
+  forall st sa votes, fits t sa = true -> seat_fits t sa = true ->
   run_impl leaf conv t votes (mk_call st sa) = run_spec leaf conv t votes sa.
 
 (* proved under [faithful t]: wherever a wrapper inspects a part's signature, the answer of
    accepts_seats / accepts_prev_gains is what the part really takes *)
 Theorem C14_compose_partial : forall leaf conv t, wt t = true -> faithful t = true ->
+  forall st sa votes, fits t sa = true -> seat_fits t sa = true ->
+  run_impl leaf conv t votes (mk_call st sa) = run_spec leaf conv t votes sa.
+Proof. intros leaf conv t Hw Hf st sa votes Hs Hn. exact (compose leaf conv t Hw Hf st sa votes Hs Hn). Qed.
+
+(* when every distributor apportioner and every overall evaluator takes a seat count ([seated], the typing of the first
+   version of this theorem) no condition on the seat argument is needed *)
+Theorem C14_compose_seated_partial : forall leaf conv t, wt t = true -> seated t = true -> faithful t = true ->
   forall st sa votes, fits t sa = true ->
   run_impl leaf conv t votes (mk_call st sa) = run_spec leaf conv t votes sa.
-Proof. intros leaf conv t Hw Hf st sa votes Hs. exact (compose leaf conv t Hw Hf st sa votes Hs). Qed.
+Proof. intros leaf conv t Hw Hse Hf st sa votes Hs. exact (compose_seated leaf conv t Hw Hse Hf st sa votes Hs). Qed.
 
 (* the hypotheses are satisfiable by a depth-4 tree mixing six wrappers *)
 Example C14_compose_nonvacuous :
@@ -33,7 +46,41 @@ Example C14_compose_nonvacuous :
                    PreAppD (ByCons (Leaf 4 LDist) ANone) (Leaf 5 LDist);
                    ByParty (Leaf 6 LDist) (Leaf 7 LDist) ] 1 in
   wt t = true /\ faithful t = true /\
-  fits t (KW (Some (VInt 5)) (Some (VDict [])) None None None None) = true.
+  fits t (KW (Some (VInt 5)) (Some (VDict [])) None None None None) = true /\
+  seat_fits t (KW (Some (VInt 5)) (Some (VDict [])) None None None None) = true.
+Proof. vm_compute. repeat split. Qed.
+
+(* ... by the shape of the Czech 2021 system: PreApportioned(Conditioned(UnusedVotesDistributor([ByConstituency(quota),
+   RemovedApportionment(ByParty(largest remainder))], [imperiali], depth 2), threshold, depth 2), apportioner) ... *)
+Example C14_compose_nonvacuous_unused :
+  let t := PreAppD (Cond (Leaf 1 LThr)
+                         (Unused [ByCons (Leaf 2 LDist) ANone; RemApp (ByPartyS (Leaf 3 LDist))] [4%positive] 1) 1)
+                   (Leaf 5 LDist) in
+  wt t = true /\ faithful t = true /\ seated t = true /\
+  fits t (KW (Some (VInt 200)) None None None None None) = true.
+Proof. vm_compute. repeat split. Qed.
+
+(* ... by the shape of the New Zealand system: MultistageDistributor([electorates, AdjustedSeatCount(AllowOverhang(pe), list)]),
+   by a levelled variant behind a VotingSystem, and by tie-breaking inside per-constituency evaluation inside a post-conversion *)
+Example C14_compose_nonvacuous_adjusted :
+  let t := Multi [ PostConv (ByCons (TieBr (TieBr (Leaf 1 LSelD) (PreConv 2 (Leaf 3 LSelD))) (Leaf 4 LSelD)) (AInt 1)) 5;
+                   AdjAllow (Leaf 6 LDist) (TieBr (Leaf 7 LDist) (Leaf 8 LSelD));
+                   VSys (AdjLevel (Cond (Leaf 9 LThr) (Leaf 10 LDist) 0) (Leaf 11 LDist) 100);
+                   AdjLeaf 12 (Leaf 13 LDist) ] 0 in
+  wt t = true /\ faithful t = true /\ seated t = true /\
+  fits t (KW (Some (VInt 120)) None None None None None) = true.
+Proof. vm_compute. repeat split. Qed.
+
+(* ... and by seatless parts: a seatless distributor apportioner (seat count omitted or a dictionary), a seatless overall
+   evaluator of ByParty (seat count omitted), reached through Conditioned at depth 2 *)
+Example C14_compose_nonvacuous_seatless :
+  let t1 := Cond (Leaf 1 LThr) (ByConsD (Leaf 2 LDist) (Leaf 3 LSDist)) 1 in
+  let t2 := ByParty (Leaf 4 LSDist) (Leaf 5 LDist) in
+  wt t1 = true /\ faithful t1 = true /\ seated t1 = false /\
+  seat_fits t1 kw_none = true /\ seat_fits t1 (KW (Some (VDict [(KC 101, VInt 2)])) None None None None None) = true /\
+  seat_fits t1 (KW (Some (VInt 3)) None None None None None) = false /\
+  wt t2 = true /\ faithful t2 = true /\ seated t2 = false /\
+  seat_fits t2 kw_none = true /\ seat_fits t2 (KW (Some (VInt 3)) None None None None None) = false.
 Proof. vm_compute. repeat split. Qed.
 
 (* without faithfulness the statement is false: a generic (votes, *args, **kwargs) wrapper below
@@ -47,7 +94,7 @@ Proof.
   intro H.
   specialize (H echo_leaf id_conv (ByCons (TieBr (Leaf 1 LDist) (Leaf 2 LSelD)) ANone) eq_refl PosSeats
                 (KW (Some (VInt 3)) (Some (VDict [(KC 101, VDict [(KC 1, VInt 2)])])) None None None None)
-                (VDict [(KC 101, VDict [(KC 1, VInt 60)])]) eq_refl).
+                (VDict [(KC 101, VDict [(KC 1, VInt 60)])]) eq_refl eq_refl).
   vm_compute in H. discriminate H.
 Qed.
 
@@ -60,6 +107,17 @@ Proof.
   exists (Cond (Leaf 1 LThr) (PreConv 2 (Leaf 3 LSDist)) 0),
          (KW (Some (VInt 3)) None None None None None), (VDict [(KC 1, VInt 60)]).
   split; [reflexivity|]. split; [reflexivity|]. vm_compute. intro H. discriminate H.
+Qed.
+
+(* [seat_fits] cannot be dropped: core.apportion hands a seat NUMBER to the apportioner positionally without looking at its
+   signature - a seatless apportioner (VotesPerSeat) receives it as prev_gains, where the by-hand composition would refuse *)
+Theorem C14_seat_number_to_seatless_refuted :
+  exists t sa votes, wt t = true /\ faithful t = true /\ fits t sa = true /\ seat_fits t sa = false /\
+    run_impl echo_leaf id_conv t votes (mk_call PosSeats sa) <> run_spec echo_leaf id_conv t votes sa.
+Proof.
+  exists (ByConsD (Leaf 1 LDist) (Leaf 2 LSDist)), (KW (Some (VInt 3)) None None None None None),
+         (VDict [(KC 101, VDict [(KC 1, VInt 60)])]).
+  repeat (split; [reflexivity|]). vm_compute. intro H. discriminate H.
 Qed.
 
 (* ByConstituency with every constituency at zero seats: StopIteration (known finding) *)
@@ -118,6 +176,8 @@ Theorem C14_partylist_closed : forall pl party n l,
 Proof. exact closed_list_spec. Qed.
 
 Print Assumptions C14_compose_partial.
+Print Assumptions C14_compose_seated_partial.
+Print Assumptions C14_seat_number_to_seatless_refuted.
 Print Assumptions C14_compose_unfaithful_refuted.
 Print Assumptions C14_seatless_behind_generic_refuted.
 Print Assumptions C14_all_zero_stop.
